@@ -54,6 +54,24 @@ def clusters_frame(cluster_members):
     return pd.DataFrame(rows, columns=["mutation_id", "cluster_id"]).drop_duplicates()
 
 
+def write_cluster_file(path, cluster_members, samples=None):
+    """cluster_members: {cluster_id: [mutation ids]}.  samples given -> long format (one line per mutation and sample, with
+    per-sample columns that differ between the lines of a mutation), else one line per mutation."""
+    with open(path, "w") as fh:
+        if samples:
+            fh.write("mutation_id\tsample_id\tcluster_id\tcellular_prevalence\tcellular_prevalence_std\tcluster_assignment_prob\n")
+            for c, ms in cluster_members.items():
+                for m in ms:
+                    for k, smp in enumerate(samples):
+                        fh.write("%s\t%s\t%d\t%.3f\t0.01\t1.0\n" % (m, smp, int(c), 0.1 + 0.07 * k))
+        else:
+            fh.write("mutation_id\tcluster_id\n")
+            for c, ms in cluster_members.items():
+                for m in ms:
+                    fh.write("%s\t%d\n" % (m, int(c)))
+    return path
+
+
 # ---------------------------------------------------------------- trees
 def relabelled_tree(spec, data, labels=None, kid_order=None):
     """Build a real tree for a canonical spec; `kid_order` (a random.Random or None) permutes the creation
@@ -346,7 +364,21 @@ def run_job(job):
     if job.get("want_trees"):
         out["_trees"] = {c: [describe_entry(e["tree"]) for e in results[c]["trace"]] for c in results}
     try:
-        f = write_trace(os.path.join(d, "trace.pkl.gz"), results)
+        if job.get("clusters"):
+            # clustered jobs go through the REAL writer with a real cluster file (two-column, or PyClone-VI style: one line per
+            # mutation and sample with extra columns; the file also lists clusters / mutations the loader dropped)
+            from phyclone.process_trace.process_trace import create_main_run_output
+
+            cf = os.path.join(d, "clusters.tsv")
+            fmt = job.get("cluster_file_format") or ("long" if (len(job["clusters"]) + job["n_samples"]) % 2 == 0 else "two-column")
+            write_cluster_file(cf, job["clusters"], samples if fmt == "long" else None)
+            for res in results.values():
+                res.pop("clusters", None)
+            f = os.path.join(d, "trace.pkl.gz")
+            with Quiet():
+                create_main_run_output(cf, f, results)
+        else:
+            f = write_trace(os.path.join(d, "trace.pkl.gz"), results)
         for cmd in job["cmds"]:
             key = "/".join(str(x) for x in cmd)
             tab, nwk, arch = os.path.join(d, "t.tsv"), os.path.join(d, "t.nwk"), os.path.join(d, "a.tar.gz")
